@@ -57,6 +57,30 @@ def probe_events(name, cc, conv, types, battery):
              "res": r if r != "error" else "error:" + kinds[i]} for i, r in enumerate(res)]
 
 
+DROPPED = set()      # addresses of user-supplied converters that have been released
+
+
+def alloc(factory):
+    """A new user-supplied converter.  Where the object lands is the allocator's choice; like the thread
+    scheduler it is steered towards the interesting case: an address a released converter lived at
+    (blank instances of the class walk the allocator's free list until such an address comes up; it is
+    released again right before the real converter is created)."""
+    if not DROPPED:
+        return factory()
+    import cattrs
+    keep = []
+    try:
+        for _ in range(20000):
+            o = object.__new__(cattrs.Converter)
+            if id(o) in DROPPED:
+                del o
+                return factory()
+            keep.append(o)
+    finally:
+        del keep[:]
+    return factory()
+
+
 def make(cfg, pool):
     """Create a converter as the configuration says; pool holds user-supplied converters."""
     import cattrs
@@ -64,22 +88,22 @@ def make(cfg, pool):
     if cfg == "fresh":
         return converters.get_converter()
     if cfg == "user":
-        c = cattrs.Converter()
+        c = alloc(cattrs.Converter)
         pool.append(c)
         return converters.get_converter(c)
     if cfg == "user_nodetail":
-        c = cattrs.Converter(detailed_validation=False)
+        c = alloc(lambda: cattrs.Converter(detailed_validation=False))
         pool.append(c)
         return converters.get_converter(c)
     if cfg == "user_hook":
         from lsprotocol import types
-        c = cattrs.Converter()
+        c = alloc(cattrs.Converter)
         c.register_unstructure_hook(types.Position, lambda p: {"line": p.line, "character": p.character, "userHook": True})
         pool.append(c)
         return converters.get_converter(c)
     if cfg == "same_again":
         if not pool:
-            c = cattrs.Converter()
+            c = alloc(cattrs.Converter)
             pool.append(c)
         return converters.get_converter(pool[-1])
     raise ValueError(cfg)
@@ -233,18 +257,30 @@ def run_sched(schedule, battery):
 
 
 def run_hist(history, battery):
+    import gc
     from lsprotocol import types
-    pool, convs, events, classes = [], [], [], {}
+    pool, convs, events = [], [], []
+    c = None
     for i, cfg in enumerate(history):
         name = "c%d" % (i + 1)
+        if cfg == "drop":
+            # every converter created so far becomes garbage (later objects may well live at the same addresses)
+            DROPPED.update(id(c) for c in pool)
+            del convs[:]
+            del pool[:]
+            conv = c = None        # the loop variable of the probing loop below still names the last converter
+            gc.collect()
+            events.append({"e": "Drop", "conv": name, "cfg": cfg, "ok": True, "exc": ""})
+            continue
         try:
+            prev = {id(c): cc for _, c, cc in convs}
             conv = make(cfg, pool)
-            if cfg in ("user_nodetail", "user_hook"):
-                classes[id(conv)] = "n" if cfg == "user_nodetail" else "h"
-            convs.append((name, conv, classes.get(id(conv), "d")))
+            cc = "n" if cfg == "user_nodetail" else "h" if cfg == "user_hook" else prev.get(id(conv), "d") if cfg == "same_again" else "d"
+            convs.append((name, conv, cc))
             events.append({"e": "Create", "conv": name, "cfg": cfg, "ok": True, "exc": ""})
         except BaseException as e:  # noqa: BLE001
             events.append({"e": "Create", "conv": name, "cfg": cfg, "ok": False, "exc": type(e).__name__ + ": " + str(e)[:120]})
+        conv = None
         for cname, c, cc in convs:      # creating one must not alter another: probe all, every time
             events.extend(probe_events(cname, cc, c, types, battery))
     return {"events": events, "forced": len(history), "deviated": 0}
